@@ -284,7 +284,7 @@ class Explorer:
         else:
             opts = list(n)
         v, _ = self._next(("c", label, len(opts)), lambda: list(range(len(opts))))
-        self.choices.append((label, opts[v] if isinstance(opts[v], (int, str, bool)) else v))
+        self.choices.append((label, opts[v] if _choice_by_value(n, opts) else v))
         return opts[v]
 
     def assume(self, cond):
@@ -484,6 +484,14 @@ class ReplayMismatch(Exception):
     pass
 
 
+def _choice_by_value(n, opts):
+    """a recorded choice is the option itself when every option is a plain str or a plain int (readable counterexamples), its index
+    otherwise (None / bool / mixed / duplicate options would make a value ambiguous)"""
+    if isinstance(n, int):
+        return True
+    return bool(opts) and len(set(map(repr, opts))) == len(opts) and (all(type(o) is str for o in opts) or all(type(o) is int for o in opts))
+
+
 class ConcreteRun:
     """Runs a body with the concrete values of a counterexample (ordinary ints/floats)."""
     concrete = True
@@ -522,7 +530,7 @@ class ConcreteRun:
         self.cpos += 1
         if lab != label:
             raise ReplayMismatch(f"choice label {lab} vs {label}")
-        if isinstance(opts[0] if opts else 0, (int, str, bool)) and not isinstance(n, int):
+        if _choice_by_value(n, opts):
             return opts[opts.index(v)]
         return opts[v]
 
